@@ -61,6 +61,13 @@ Fixpoint names (ps : list piece) : list str :=
   | POne n :: t | POpt n :: t | PStar n :: t | PPlus n :: t => n :: names t
   end.
 
+(* number of ?, * and + parameters *)
+Fixpoint nwild (ps : list piece) : nat :=
+  match ps with
+  | [] => 0%nat
+  | p :: t => ((if is_wild p then 1 else 0) + nwild t)%nat
+  end.
+
 (* the documented grammar: ?, * and + only on the last segment *)
 Fixpoint wf_pieces (ps : list piece) : bool :=
   match ps with
